@@ -318,10 +318,16 @@ func (m *gmodel) roles(n, o string) map[string]string {
 	if t := m.token(n); t != n {
 		put("token", m.reg[t])
 	}
-	for c, x := range m.reg {
+	// deterministic: the same seed must give the same scenarios (replay, differential replay of C15)
+	var kids []string
+	for c := range m.reg {
 		if parOf(c) == n {
-			put("child", x)
+			kids = append(kids, c)
 		}
+	}
+	sort.Strings(kids)
+	for _, c := range kids {
+		put("child", m.reg[c])
 	}
 	for k, v := range R {
 		if v == "" || v == "nil" {
